@@ -3,11 +3,14 @@ package checks
 import (
 	"bytes"
 	"fmt"
+	"io"
+	"strings"
 
 	"github.com/gregoryv/mq"
 
 	"verif/mc/bind"
 	"verif/mc/core"
+	"verif/mc/env"
 )
 
 // C04 — decoding never panics, whatever bytes arrive.
@@ -20,6 +23,7 @@ func init() {
 		Rule: "odometers over raw input families, each enumerated completely: F1 every byte string of length <=2 (quick; 3 bytes over a 24-letter alphabet) / <=3 (thorough) as a stream, and every string of length <=2 to each of the 16 UnmarshalBinary methods; " +
 			"F2 46 first bytes (every type with flag nibbles 0 and 2, PUBLISH with all 16) x every body of length <=5 (quick) / <=6 (thorough) over the 12-byte alphabet {00,01,02,03,04,05,0b,1f,26,7f,80,ff} with a consistent remaining length, bodies <=4 also directly to UnmarshalBinary; " +
 			"F3 every prefix of every frame of the valid corpus V (stream ends; remaining length rewritten; body prefix to UnmarshalBinary); F4 every frame of V x every length field of its field map (remaining length, property length, string/binary prefixes, varints) x {-2,-1,+1,+2,0,1,max,max-1..max-4,7f,80,ff,100,3fff,4000,7fff,8000}; F5 every other type nibble x every body of V; F6 every frame of V with one more property (each of the 27 defined identifiers, zero and non-zero value) inserted at every property boundary of every property section, lengths kept consistent (duplicates, second occurrences of other lengths, properties foreign to the packet); F7 every frame of V with every single body byte replaced by each letter of the 12-byte alphabet (quick) / by every other value (thorough). " +
+			"F8 the frames of the dense strata (every length 0..300 of every field from three bases, pairs of lengths, identifiers over a 7-bit-group alphabet, 43 filter contents x all 256 option bytes x placement). The framing-level families (F1 streams of 2 bytes, F3 stream prefixes, V itself) are also read through six further reader implementations (bufio with a 16-byte buffer, own type with Peek/Discard, LimitedReader, own type with an unrelated Len(), bytes.Buffer, strings.Reader). " +
 			"Oracle: no panic; ReadPacket returns exactly one of packet / error. distinct_nontrivial = distinct inputs (content hash) that got past the fixed header (a body was decoded).",
 		Assumptions: []string{
 			"inputs that exceed the step budget are counted and left to C05 (termination); they are not panics",
@@ -50,12 +54,18 @@ func c04Exec(c *rawCase) (*core.Finding, bool) {
 		}
 		return nil, true
 	}
-	p, err, res := readPacket(bytes.NewReader(c.Stream), budget)
+	var rd io.Reader = bytes.NewReader(c.Stream)
+	via := ""
+	if c.Reader > 0 {
+		rd = env.Wrap(env.Kind(c.Reader), &env.Reader{Data: c.Stream})
+		via = " through " + env.Kind(c.Reader).String()
+	}
+	p, err, res := readPacket(rd, budget)
 	past := len(c.Stream) >= 2
 	switch {
 	case res.Panic != "":
 		return &core.Finding{Class: "panic:" + res.PanicClass, Sig: map[string]string{"entry": "ReadPacket"},
-			Detail: fmt.Sprintf("ReadPacket(% x) panicked: %s", clipBytes(c.Stream), res.Panic)}, past
+			Detail: fmt.Sprintf("ReadPacket(% x)%s panicked: %s", clipBytes(c.Stream), via, res.Panic)}, past
 	case res.Budget:
 		return nil, past
 	case p != nil && err != nil:
@@ -78,7 +88,21 @@ func runC04(x *core.Ctx) {
 	if x.Thorough() {
 		maxBody = 6
 	}
+	kinds := []env.Kind{env.KBufio16, env.KRich, env.KLimited, env.KOddLen, env.KBytesBuffer, env.KStringsReader}
 	enumRaw(x, maxBody, func(c *rawCase) bool {
+		if c.Direct < 0 && (strings.HasPrefix(c.Stratum, "F3.prefix") || c.Stratum == "V.valid" || c.Stratum == "F1.stream.len2") {
+			// "through any reader": the framing-level families again through
+			// the other reader implementations
+			for _, k := range kinds {
+				ck := &rawCase{Stratum: c.Stratum + ".readers", Stream: c.Stream, Direct: -1, Reader: int(k)}
+				f, _ := c04Exec(ck)
+				x.Eval(ck.Stratum)
+				if f != nil {
+					cc := &rawCase{Stratum: ck.Stratum, Stream: append([]byte{}, c.Stream...), Direct: -1, Reader: int(k)}
+					x.Report(f, func() core.Case { return cc.toCase("c04") }, func() *core.Finding { g, _ := c04Exec(cc); return g })
+				}
+			}
+		}
 		f, past := c04Exec(c)
 		x.Eval(c.Stratum)
 		if past {
